@@ -894,7 +894,7 @@ Definition complete_one (id : Z) (b : bank) (s : ent_state) : outcome (bank * en
       if negb (po_status o =? ST_ACCEPTED) then Panic PANIC_BLOCKER else
       let s1 := with_pos s (aset id (set_po_status o ST_COMPLETED 0 false) (e_pos s))
                          (e_raisedq s) (e_acceptedq s) in
-      if po_purchaser o =? BAD_ADDR then Panic PANIC_BLOCKER else
+      if negb (addr_parses (po_purchaser o)) then Panic PANIC_BLOCKER else
       match mint_and_lock b s1 (po_purchaser o) (po_denom o, po_amount o) with
       | Ok (b2, s2) => Ok (b2, with_pos s2 (e_pos s2) (e_raisedq s2) (remove_z id (e_acceptedq s2)))
       | Err _ => Panic PANIC_BLOCKER
@@ -913,7 +913,7 @@ Proof.
   unfold complete_one. cbn [process_accepted].
   destruct (aget id (e_pos s)) as [o|]; [|reflexivity].
   destruct (negb (po_status o =? ST_ACCEPTED)); [reflexivity|]. cbv zeta.
-  destruct (po_purchaser o =? BAD_ADDR); [reflexivity|].
+  destruct (negb (addr_parses (po_purchaser o))); [reflexivity|].
   destruct (mint_and_lock _ _ _ _) as [[b2 s2]| |]; reflexivity.
 Qed.
 
@@ -935,7 +935,7 @@ Proof.
   intros I. unfold complete_one.
   destruct (aget id (e_pos s)) as [o|] eqn:G; [|discriminate].
   destruct (po_status o =? ST_ACCEPTED) eqn:St; cbn [negb]; [|discriminate]. cbv zeta.
-  destruct (po_purchaser o =? BAD_ADDR) eqn:Eb; [discriminate|].
+  destruct (negb (addr_parses (po_purchaser o))) eqn:Eb; [discriminate|].
   pose proof (si_po _ _ I _ _ G) as K. rewrite (pk_denom _ _ _ _ _ K).
   set (s1 := with_pos s _ _ _).
   destruct (mint_and_lock b s1 (po_purchaser o) (dn s, po_amount o)) as [[b2 s2]| |] eqn:M;
@@ -958,8 +958,8 @@ Proof.
   intros I [B1 B2] Nn G St. unfold complete_one. rewrite G.
   destruct (po_status o =? ST_ACCEPTED) eqn:St'; [|lia]. cbn [negb]. cbv zeta.
   pose proof (si_po _ _ I _ _ G) as K.
-  destruct (po_purchaser o =? BAD_ADDR) eqn:Eb.
-  { pose proof (pk_purch _ _ _ _ _ K). unfold BAD_ADDR in Eb. lia. }
+  destruct (negb (addr_parses (po_purchaser o))) eqn:Eb.
+  { pose proof (pk_purch _ _ _ _ _ K). unfold addr_parses, BAD_ADDR, EMPTY_ADDR in Eb. lia. }
   rewrite (pk_denom _ _ _ _ _ K).
   set (s1 := with_pos s _ _ _).
   destruct (mint_and_lock_ok b s1 (po_purchaser o) (po_amount o)) as (b2 & M).
